@@ -979,6 +979,13 @@ pub mod verif_hooks {
         }
     }
 
+    impl Drop for Table {
+        fn drop(&mut self) {
+            // the detached listener cell was enrolled in the pid registry
+            ractor::verif::set_status(&self.0.listener.get_cell(), ractor::ActorStatus::Stopped);
+        }
+    }
+
     fn name_message(peer_name: &str, connection_id: u64) -> auth_protocol::NameMessage {
         auth_protocol::NameMessage {
             flags: Some(auth_protocol::NodeFlags {
